@@ -426,6 +426,17 @@ pub fn c02_streams(tier: Tier) -> Vec<(SvcCfg, Vec<u8>)> {
             v.push((c, s));
         }
     }
+    // a method that upgrades the connection called by a request that does not carry the upgrade flag:
+    // it is the implementation's to_upgraded() that switches the connection, the flag is the caller's wish
+    for mode in [2u8, 3] {
+        let mut c = cfg.clone();
+        c.upgrade_mode = mode;
+        let a = c.scripted[0].clone();
+        let mut s = alphabet::stream_of(&c, &[Kind(Base::Echo, Flags::NONE)], "u");
+        s.extend(frame(&request(&format!("{}.Upgrade", a), Some(json!({"token": "up"})), Flags::NONE)));
+        s.extend_from_slice(if mode == 3 { &b"a\nEnd\nb\nEnd\n"[..] } else { &b"first line\nsecond line\npart"[..] });
+        v.push((c, s));
+    }
     // length-prefixed upgraded protocol (one length byte, then that many bytes): the handler peeks,
     // and hands the length byte back when the payload is not complete yet
     {
